@@ -169,4 +169,12 @@ def c14_5(c: Ctx) -> None:
             c.ok(where(sh), 'CleanShutdownQueue.shutdown() releases waiters and removes no queued item')
 
 
+@ob('C14.6', 'WMC', 'events enter a bus only through dispatch(): nothing else inserts into event_history or assigns lineage (same check as C09 / C04.9), so the accept-or-reject order of '
+    'dispatch (capacity check, enqueue, only then history / children) cannot be bypassed by a bulk or deferred entry point')
+def c14_6(c: Ctx) -> None:
+    from .c09 import check_dispatch_entry_points
+
+    check_dispatch_entry_points(c)
+
+
 OBLIGATIONS = ob.obs
